@@ -121,7 +121,7 @@ Common(tr, T, ev) ==
        \A k \in 1..NLw(tr) : CompNormalisedAll(post.vol[k], pc[k])),
     Cl("C09.wellformed", F.records /\ ev.recs # <<>>,
        \A i \in 1..Len(ev.recs) : ev.recs[i].t \in {"BA", "BD", "BW"} \/ WellFormed(ev.recs[i])),
-    Cl("C01.appendonly", ev.op # "enter", ev.wprefix /\ ev.wlen = Len(wl) + Len(ev.recs)),
+    Cl("C01.appendonly", ev.op \notin {"enter", "clear"}, ev.wprefix /\ ev.wlen = Len(wl) + Len(ev.recs)),
     Cl("C03.stepmax", F.records,
        \A i \in 1..Len(ev.recs) : ev.recs[i].t \in {"A", "D"} => ev.recs[i].cents <= T.wlmaxc),
     Cl("C03.replay", F.robot /\ live /\ ev.op \in TrackedOps,
@@ -660,7 +660,7 @@ JudgeFile(tr, T, ev) ==
     Cl("C01.file", ev.op \in {"save", "exit"} /\ a.ext = "gwl" /\ a.haspath /\ ev.out = "ok" /\ lines # <<>>, ev.file.lines = lines),
     Cl("C17.noext", ev.op = "save" /\ a.ext = "none", ev.out # "ok" /\ ~ev.file.exists),
     Cl("C17.nopath", ev.op = "exit" /\ ~a.haspath, ev.out = "ok" /\ ~ev.file.exists),
-    Cl("C17.enter", ev.op = "enter", ev.out = "ok" /\ ev.wlen = 0),
+    Cl("C17.enter", ev.op \in {"enter", "clear"}, ev.out = "ok" /\ ev.wlen = 0),
     Cl("C17.str", ev.op = "str", ev.out = "ok" /\ ev.strlines = lines),
     Cl("C17.unchanged", ev.op \in {"save", "exit", "str"}, ev.recs = <<>> /\ ev.wlen = Len(wl))
   }
@@ -671,7 +671,7 @@ JudgeEvent(tr, T, ev) ==
   \cup (CASE ev.op \in {"add", "remove", "aspirate", "dispense"} -> JudgeLabwareOp(tr, T, ev)
           [] ev.op = "transfer" -> JudgeTransfer(tr, T, ev)
           [] ev.op = "distribute" -> JudgeDistribute(tr, T, ev)
-          [] ev.op \in {"save", "exit", "enter", "str"} -> JudgeFile(tr, T, ev)
+          [] ev.op \in {"save", "exit", "enter", "str", "clear"} -> JudgeFile(tr, T, ev)
           [] ev.op = "emit" -> JudgeEmit(tr, T, ev)
           [] ev.op \in {"evo_aspirate", "evo_dispense"} -> JudgeEvo(tr, T, ev)
           [] ev.op = "evo_wash" -> JudgeEvoWash(tr, T, ev)
@@ -712,7 +712,7 @@ Step ==
      /\ Judge([tid |-> tid, l |-> l, id |-> tr.id, op |-> ev.op], JudgeEvent(tr, T, ev))
      /\ l' = l + 1 /\ tid' = tid
      /\ vol' = ev.post.vol /\ comp' = CompOf(ev.post.comp) /\ hn' = ev.post.hn
-     /\ wl' = IF ev.op = "enter" THEN <<>> ELSE wl \o ev.recs
+     /\ wl' = IF ev.op \in {"enter", "clear"} THEN <<>> ELSE wl \o ev.recs   \* (a worklist is a list: the caller may clear it)
      /\ live' = (live /\ ev.out = "ok" /\ ~Untracked(ev))
      /\ cok' = (cok /\ ev.cs)
      /\ cfg' = IF ev.op = "setconfig" /\ ev.out = "ok"
